@@ -4,6 +4,7 @@ import json
 
 from props import names_common as nc
 from props import c13_entries as ce
+from props import c13_bibtex as cb
 
 ENGINE = "names"
 RULE = ("the repository's BibTeX-derived corpus first (REGULAR_NAME_PARTS_PARSING_TEST_CASES and the strict-mode cases of "
@@ -30,10 +31,25 @@ RULE = ("the repository's BibTeX-derived corpus first (REGULAR_NAME_PARTS_PARSIN
         "SplitNameParts / MergeNameParts starting on strings, lists or NameParts, in-place and copy mode: every field must come out "
         "with what ITS OWN value gives; an invalid name gives a MiddlewareErrorBlock retaining the entry, the offending field and all "
         "non-name fields unchanged, every other name field unchanged or transformed from its own value. "
+        "CONTROL SEQUENCES WITH AND WITHOUT BRACED ARGUMENTS AT EVERY BRACE LEVEL (harness/props/c13_bibtex.py, streams cs-*): accents "
+        "with a braced / bare / empty argument (\\'{E} \\'E \\v{C} \\v C \\\"{o} \\c{c} ...), BibTeX's built-in control words (\\ss \\AA \\aa \\o "
+        "\\O \\L \\l \\i \\j \\oe \\OE \\ae \\AE) bare, with {} and braced, other control words (\\relax X), backslash + non-letter - each "
+        "(a) at brace level 0 where it is no special character, (b) as a special character {\\'{E}}douard {\\v{C}}apek {\\AA}, (c) inside a "
+        "protecting group {Val\\'{e}ry}, (d) at level 2; upper- and lower-case argument / control word / following letters; every such "
+        "word as the first / a middle / the last word of 2-5 word names in the three comma forms, always in the two smallest places "
+        "where its case decides the split (U W U; W U, U); two such words in one name; the same names non-strict, through "
+        "SplitNameParts and through parse_string + SeparateCoAuthors + SplitNameParts.  VERDICT (all streams but the entry-level "
+        "reference of which it is a parameter, too): a literal transcription of bibtex.web's von_token_found (c13_bibtex.py) + the "
+        "partition of the property text, validated on the repository's BibTeX-derived corpus at every run (tag "
+        "corpus_validated_bibtex_transcription); a case is attributed to known finding K14 exactly when that verdict fails and the "
+        "verdict by the in-house reference (names_common.word_case = the rule of the Coq spec = what the library does) holds; the "
+        "distribution counts the cases on which the two references differ, per class D1..D5 (tags bibtex_*). "
         "distinct = distinct (text, strict flag) or (entry, middleware) or (libraries); non-trivial = at least two words, or a brace/backslash/"
         "comma, or an invalid name")
 TRUSTED = ["independent Python transcription of BibTeX's name algorithm (harness/props/names_common.py: spec_parse), validated at "
-           "every run against the repository's corpus produced by real BibTeX"]
+           "every run against the repository's corpus produced by real BibTeX",
+           "literal Python transcription of bibtex.web's von_token_found (harness/props/c13_bibtex.py), validated the same way; it gives "
+           "the verdict, names_common only decides whether a failure belongs to known finding K14"]
 ASSUMPTIONS = ["CPython's str.isalpha / str.isupper enter the model as per-character flags"]
 
 REASONS = {"Unmatched closing brace": 1, "Too many commas": 2, "Unterminated opening brace": 3, "Trailing comma at end of name": 4}
@@ -114,6 +130,44 @@ def generate(rng, tier):
     cases.extend(whitespace_cases(rng, tier, seen))
     # appended after every earlier stream, so that those keep their inputs
     cases.extend(ce.entry_class_cases(rng, tier, pn, pool))
+    cases.extend(cs_cases(rng, tier, seen))
+    return cases
+
+
+# ---------------------------------------------------------------- control sequences at every brace level (c13_bibtex.py)
+def cs_cases(rng, tier, seen):
+    quick = tier == "quick"
+    named = []
+    for kind, s in [("csreal", n) for n in cb.REAL_NAMES] + cb.class_names(rng, tier):
+        if s not in seen:
+            seen.add(s)
+            named.append((kind, s))
+    cases = [{"stream": "cs-names", "input": {"level": "fn", "s": s, "strict": True, "cs": kind}} for kind, s in named]
+    for kind, s in rng.sample(named, min(1500 if quick else 20000, len(named))):
+        cases.append({"stream": "cs-nonstrict", "input": {"level": "fn", "s": s, "strict": False, "cs": kind}})
+    valid = [s for _, s in named if nc.spec_parse(s) is not None]
+    # the same names through SplitNameParts ...
+    for _ in range(700 if quick else 7000):
+        keys = ["author", "editor", "translator", "title"]
+        rng.shuffle(keys)
+        fields = [[k, {"list": [rng.choice(cb.REAL_NAMES) if rng.random() < 0.1 else rng.choice(valid) for _ in range(rng.randint(1, 3))]}]
+                  for k in keys[:rng.randint(1, 2)]]
+        cases.append({"stream": "cs-middleware", "input": {"level": "mw", "fields": fields, "mws": rng.choice([[2], [2], [2], [2, [3, 0]], [2, [3, 1]]])}})
+    # ... and through parse_string + SeparateCoAuthors + SplitNameParts (names a bib text can hold as they are)
+    intext = [s for s in valid if ce.text_ok(s) and not any(c in s for c in '%#"\n\r\t') and "\\\\" not in s
+              and not any(nc.is_and(s[a:b]) for a, b in nc.top_words(s))]
+    for _ in range(300 if quick else 3000):
+        chunks = []
+        for i in range(rng.randint(1, 2)):
+            flds = []
+            for k in rng.sample(["author", "editor", "title"], rng.randint(1, 2)):
+                if k == "title":
+                    flds.append("  title = {T}")
+                else:
+                    nm = [rng.choice(cb.REAL_NAMES) if rng.random() < 0.15 else rng.choice(intext) for _ in range(rng.randint(1, 3))]
+                    flds.append("  %s = {%s}" % (k, " and ".join(nm)))
+            chunks.append("@article{k%d,\n%s\n}\n" % (i, ",\n".join(flds)))
+        cases.append({"stream": "cs-text", "input": {"level": "text", "text": "".join(chunks), "eol": "\n", "cs": 1}})
     return cases
 
 
@@ -375,12 +429,21 @@ def enc_parts_dict(enc, d):
     return [[enc.enc_str(w) for w in d[k]] for k in ("first", "von", "last", "jr")]
 
 
+# The reference that gives the verdict: c13_bibtex.parse (BibTeX's own von test).  impl() evaluates a failing case once more
+# with the in-house reference to decide whether the failure is the known finding K14.
+_REF = [cb.parse]
+
+
+def ref_parse(name):
+    return _REF[0](name)
+
+
 def check_valid(name, got):
     """direct statement of the property for a valid name (got: dict)"""
     secs = nc.top_words5(name)
     if secs and not secs[-1] and len(secs) == 1:
         secs = []
-    exp = nc.spec_parse(name)
+    exp = ref_parse(name)
     if exp is None:
         return False, "invalid name %r was split into %r instead of being reported" % (name, got)
     # every word once, in order, within its section
@@ -399,6 +462,47 @@ def check_valid(name, got):
 
 
 def impl(case):
+    """the verdict by BibTeX's own von test; a failure that is none by the in-house reference (the implementation does what
+    that reference says, and BibTeX says otherwise) is the known finding K14"""
+    _REF[0] = ce.PARSE = cb.parse
+    rec = _impl(case)
+    o = rec.get("oracle")
+    if o is not None and not o.get("ok") and not o.get("known") and "ORACLE INVALID" not in (o.get("detail") or ""):
+        _REF[0] = ce.PARSE = nc.spec_parse
+        try:
+            o2 = _impl(case).get("oracle")
+        finally:
+            _REF[0] = ce.PARSE = cb.parse
+        if o2 is not None and o2.get("ok"):
+            o["known"] = "K14"
+            o["detail"] = "[K14: the in-house rule (= the library) differs from BibTeX here] " + (o.get("detail") or "")
+            rec["tags"] = list(rec.get("tags") or []) + ["k14_attributed"]
+    return rec
+
+
+def ref_tags(names):
+    """distribution: on which of these (valid) names do BibTeX's von test and the in-house rule differ, and by which class"""
+    tags = set()
+    for n in names:
+        if not isinstance(n, str):
+            continue
+        try:
+            b = cb.parse(n)
+        except Exception:  # noqa: BLE001
+            continue
+        if b is None:
+            continue
+        classes = cb.deviation_classes(n)
+        for k in classes:
+            tags.add("bibtex_word_case_differs:" + k)
+        if classes and b != nc.spec_parse(n):
+            tags.add("bibtex_partition_differs")
+            for k in classes:
+                tags.add("bibtex_partition_differs:" + k)
+    return sorted(tags)
+
+
+def _impl(case):
     import enc
     import implutil
     from bibtexparser.middlewares.names import InvalidNameError, parse_single_name_into_parts as pn
@@ -434,7 +538,13 @@ def impl(case):
                 again = type(e).__name__
             if again != got:
                 alias = "a second call on %r returned %r after the first result (%r) was edited in place" % (s, again, got)
-        spec = nc.spec_parse(s)
+        spec = ref_parse(s)
+        spec_b, spec_h = cb.parse(s), nc.spec_parse(s)
+        rec["tags"].extend(ref_tags([s]))
+        if "cs" in inp:
+            rec["tags"].append("cs_kind:%s" % inp["cs"])
+            if spec_b is not None:
+                rec["tags"].append("cs_form%d_%dwords" % (len(cb.sections_text(s)), min(5, sum(len(x) for x in cb.sections_text(s)))))
         nwords = sum(len(x) for x in nc.top_words5(s))
         rec["nontrivial"] = nwords >= 2 or any(c in s for c in "{}\\,") or spec is None
         wskinds = [t for t, cs in (("ws_tab", "\t"), ("ws_cr", "\r"), ("ws_lf", "\n"), ("ws_nonsep", WS_NONSEP)) if any(c in s for c in cs)]
@@ -472,19 +582,28 @@ def impl(case):
             elif spec is not None and got != spec:
                 ok, detail = False, "non-strict result differs on the valid name %r: %r vs %r" % (s, got, spec)
             rec["tags"].append("nonstrict")
-        # the repository's corpus validates the transcription itself
+        # the repository's corpus validates both transcriptions themselves
         if "expected" in inp:
             rec["tags"].append("corpus_validated")
-            if spec != inp["expected"]:
-                ok, detail = False, "ORACLE INVALID: transcription gives %r on corpus name %r, BibTeX gave %r" % (spec, s, inp["expected"])
+            if spec_h != inp["expected"]:
+                ok, detail = False, "ORACLE INVALID: transcription gives %r on corpus name %r, BibTeX gave %r" % (spec_h, s, inp["expected"])
+            elif spec_b != inp["expected"]:
+                ok, detail = False, "ORACLE INVALID: the von_token_found transcription gives %r on corpus name %r, BibTeX gave %r" % (spec_b, s, inp["expected"])
             elif got != inp["expected"]:
                 ok, detail = False, "corpus name %r: got %r, BibTeX gave %r" % (s, got, inp["expected"])
+            else:
+                rec["tags"].append("corpus_validated_bibtex_transcription")
         if "reason" in inp:
             rec["tags"].append("corpus_validated")
-            if spec is not None:
+            if spec_h is not None or spec_b is not None:
                 ok, detail = False, "ORACLE INVALID: transcription accepts corpus name %r (%s)" % (s, inp["reason"])
             elif res != [1, REASONS[inp["reason"]]]:
                 ok, detail = False, "corpus name %r: expected InvalidNameError %r" % (s, inp["reason"])
+            else:
+                rec["tags"].append("corpus_validated_bibtex_transcription")
+        # the two references cut every name into the same words and agree on what a valid name is
+        if (spec_b is None) != (spec_h is None) or (spec_b is not None and cb.sections_text(s) != nc.top_words5(s)):
+            ok, detail = False, "ORACLE INVALID: the two tokenisers disagree on %r: %r vs %r" % (s, cb.sections_text(s), nc.top_words5(s))
         if ok and alias:
             ok, detail = False, alias
         rec["oracle"] = {"ok": ok, "detail": detail}
@@ -520,6 +639,7 @@ def impl(case):
         return lib
     r = implutil.guarded(run)
     rec = {"sx_in": sx_in, "key": json.dumps([inp["fields"], inp["mws"]]), "nontrivial": True, "tags": ["mw"]}
+    rec["tags"].extend(ref_tags([n for k, v in orig if k in NF and isinstance(v, list) for n in v]))
     well_typed = all(isinstance(v, list) and all(isinstance(x, str) for x in v) for k, v in orig if k in NF)
     simple = inp["mws"] == [2]
     if r[0] == "exc":
@@ -536,7 +656,7 @@ def impl(case):
     ok, detail = True, ""
     cn = type(blk).__name__
     if simple and well_typed:
-        invalid = [(k, n) for k, v in orig if k in NF for n in v if nc.spec_parse(n) is None]
+        invalid = [(k, n) for k, v in orig if k in NF for n in v if ref_parse(n) is None]
         if invalid:
             rec["tags"].append("error_block")
             if cn != "MiddlewareErrorBlock":
@@ -550,7 +670,7 @@ def impl(case):
                     ok, detail = False, "the error block does not retain the entry (key, type, field names)"
                 else:
                     # the field holding the first invalid name keeps its value; non-name fields are untouched
-                    first_bad = next(k for k, v in orig if k in NF and any(nc.spec_parse(n) is None for n in v))
+                    first_bad = next(k for k, v in orig if k in NF and any(ref_parse(n) is None for n in v))
                     for (k, v0), f in zip(orig, inner.fields):
                         if (k not in NF or k == first_bad) and f.value != v0:
                             ok, detail = False, "field %s of the retained entry was altered: %r -> %r" % (k, v0, f.value)
@@ -563,7 +683,7 @@ def impl(case):
             else:
                 for (k, v0), f in zip(orig, blk.fields):
                     if k in NF:
-                        exp = [nc.spec_parse(n) for n in v0]
+                        exp = [ref_parse(n) for n in v0]
                         gotv = [nc.parts_dict(p) if isinstance(p, NameParts) else p for p in f.value] if isinstance(f.value, list) else f.value
                         if gotv != exp:
                             ok, detail = False, "field %s: %r -> %r, BibTeX's rules give %r" % (k, v0, gotv, exp)
@@ -602,7 +722,7 @@ def check_lib_block(desc, blk, line, raw):
             return False, "comment block %r became %s %r" % (desc["comment"], cn, getattr(blk, "comment", None))
         return True, ""
     orig = desc["fields"]
-    invalid = [n for k, v in orig if k in NAME_FIELDS for n in v if nc.spec_parse(n) is None]
+    invalid = [n for k, v in orig if k in NAME_FIELDS for n in v if ref_parse(n) is None]
     if invalid:
         if cn != "MiddlewareErrorBlock":
             return False, "invalid name %r did not give a MiddlewareErrorBlock but %s" % (invalid[0], cn)
@@ -614,7 +734,7 @@ def check_lib_block(desc, blk, line, raw):
         if type(inner).__name__ != "Entry" or inner.key != desc["key"] or inner.entry_type != desc["type"] or \
                 [f.key for f in inner.fields] != [k for k, _ in orig]:
             return False, "the error block does not retain the entry (key, type, field names)"
-        first_bad = next(k for k, v in orig if k in NAME_FIELDS and any(nc.spec_parse(n) is None for n in v))
+        first_bad = next(k for k, v in orig if k in NAME_FIELDS and any(ref_parse(n) is None for n in v))
         for (k, v0), f in zip(orig, inner.fields):
             if (k not in NAME_FIELDS or k == first_bad) and f.value != v0:
                 return False, "field %s of the retained entry was altered: %r -> %r" % (k, v0, f.value)
@@ -627,7 +747,7 @@ def check_lib_block(desc, blk, line, raw):
         return False, "key, type or field names changed"
     for (k, v0), f in zip(orig, blk.fields):
         if k in NAME_FIELDS:
-            exp = [nc.spec_parse(n) for n in v0]
+            exp = [ref_parse(n) for n in v0]
             gotv = [nc.parts_dict(p) if isinstance(p, NameParts) else p for p in f.value] if isinstance(f.value, list) else f.value
             if gotv != exp:
                 return False, "field %s: %r -> %r, BibTeX's rules give %r" % (k, v0, gotv, exp)
@@ -661,7 +781,7 @@ def impl_lib(inp, implutil):
     flat = [d for blocks in libs for d in blocks]
 
     def is_bad(d):
-        return "fields" in d and any(nc.spec_parse(n) is None for k, v in d["fields"] if k in NAME_FIELDS for n in v)
+        return "fields" in d and any(ref_parse(n) is None for k, v in d["fields"] if k in NAME_FIELDS for n in v)
 
     def has_names(d):
         return "fields" in d and not is_bad(d) and any(v for k, v in d["fields"] if k in NAME_FIELDS)
@@ -692,7 +812,7 @@ def impl_lib(inp, implutil):
                     "" if earlier_bad is None else "; an earlier block of this instance held the invalid name %r" % earlier_bad)
                 break
             if is_bad(d) and earlier_bad is None:
-                earlier_bad = next(n for k, v in d["fields"] if k in NAME_FIELDS for n in v if nc.spec_parse(n) is None)
+                earlier_bad = next(n for k, v in d["fields"] if k in NAME_FIELDS for n in v if ref_parse(n) is None)
         if not ok:
             break
         if len(out.failed_blocks) != sum(1 for d in blocks if is_bad(d)) or len(out.entries) != sum(1 for d in blocks if "fields" in d and not is_bad(d)):
@@ -712,7 +832,8 @@ def impl_text(inp, implutil):
     from bibtexparser.middlewares import SeparateCoAuthors, SplitNameParts
     from bibtexparser.middlewares.names import NameParts
     text = inp["text"]
-    rec = {"sx_in": None, "sx_out": None, "key": json.dumps(["text", text]), "tags": ["ws_text", "ws_text_eol_%s" % {"\n": "lf", "\r\n": "crlf", "\r": "cr"}[inp["eol"]]]}
+    rec = {"sx_in": None, "sx_out": None, "key": json.dumps(["text", text]),
+           "tags": ["cs_text"] if inp.get("cs") else ["ws_text", "ws_text_eol_%s" % {"\n": "lf", "\r\n": "crlf", "\r": "cr"}[inp["eol"]]]}
 
     def run():
         with warnings.catch_warnings():
@@ -740,6 +861,8 @@ def impl_text(inp, implutil):
         if not all(isinstance(v, list) and all(isinstance(n, str) for n in v) for k, v in desc["fields"] if k in NAME_FIELDS):
             continue  # not what SplitNameParts is specified on
         nnames += sum(len(v) for k, v in desc["fields"] if k in NAME_FIELDS)
+        if inp.get("cs"):
+            rec["tags"] = sorted(set(rec["tags"] + ref_tags([n for k, v in desc["fields"] if k in NAME_FIELDS for n in v])))
         ok, detail = check_lib_block(desc, bb, ba.start_line, ba.raw)
         if not ok:
             detail = "text %r, entry %s: %s" % (text, ba.key, detail)
